@@ -426,8 +426,15 @@ verif_main(int argc, char** argv, const Property& p)
     {
       g_mode = "fixed";
       const auto fc = p.fixed_cases(tier);
+      // the fixed cases of a thorough tier can be whole enumerations of the largest predefined scanners (minutes each): they get a time
+      // budget of their own (2 x the random phase's, at least 10 min; never reached by a quick tier), and what was not run is counted
       for (std::size_t k = shard; k < fc.size(); k += nshards)
         {
+          if (now_s() - t0 > std::max(max_seconds * 2, 600.))
+            {
+              g_stats.counters["fixed_not_run_for_time"] += 1;
+              continue;
+            }
           Result r = run_case(p, fc[k]);
           g_stats.cls("front:fixed");
           if (r.failed())
@@ -439,6 +446,7 @@ verif_main(int argc, char** argv, const Property& p)
   if (do_enum && p.enumerate)
     {
       g_mode = "enum";
+      const double t_enum0 = now_s(); // the enumeration's budget is its own (the fixed phase may have used its own up)
       json c;
       for (uint64_t idx = uint64_t(shard);; idx += uint64_t(nshards))
         {
@@ -450,7 +458,7 @@ verif_main(int argc, char** argv, const Property& p)
           g_stats.cls("front:enum");
           if (r.failed())
             return report_failure(p, c, r.msg);
-          if (now_s() - t0 > std::max(max_seconds * 3, 600.))
+          if (now_s() - t_enum0 > std::max(max_seconds * 2, 600.))
             {
               enum_complete = false;
               break;
